@@ -251,6 +251,8 @@ func (d *Diamond) mergeSplits(filePackedC chan<- filePacked, errorC chan<- error
 	go func(input <-chan bundleEntriesRes, output chan<- filePacked, interrupt <-chan struct{}, wg *sync.WaitGroup) {
 		defer wg.Done()
 
+		// All the versions uploaded for a path are collected first, whatever the order in which
+		// the file lists of the splits are received: the outcome of the merge must not depend on that order.
 		mergeIndex := iradix.New()
 		for res := range input {
 			splitID := res.id
@@ -263,76 +265,72 @@ func (d *Diamond) mergeSplits(filePackedC chan<- filePacked, errorC chan<- error
 				}
 				merged++
 				d.l.Debug("merge received file entry", zap.String("from split", splitID), zap.String("entry", file.NameWithPath))
-				key := []byte(file.NameWithPath)
-				obj, found := mergeIndex.Get(key)
-				if !found {
-					mergeIndex, _, _ = mergeIndex.Insert(key, mergeEntry{BundleEntry: file, ID: splitID})
-					continue
-				}
-
-				existing := obj.(mergeEntry)
-				if file.Hash == existing.Hash {
-					continue
-				}
-
 				if file.Timestamp.IsZero() {
 					d.l.Error("dev error: expecting files processed by diamond commit to have a timestamp", zap.Any("file", file))
 					panic("dev error: files should have a timing") // internal safeguard
 				}
-				if file.Timestamp.After(existing.Timestamp) {
-					// got a more recent file
-
-					switch {
-					case mode == model.IgnoreConflicts || splitID == existing.ID:
-						// ignore conflict: replace existing entry with newer version
-						// or: self-inflicted conflict, which is ignored
-						mergeIndex, _, _ = mergeIndex.Insert(key, mergeEntry{BundleEntry: file, ID: splitID})
-
-					case mode == model.ForbidConflicts:
-						conflicts++
-						errorC <- errorHit{
-							error: status.ErrCommitGivenUp.
-								WrapWithLog(d.l, status.ErrForbiddenConflict, zap.String("entry", file.NameWithPath)),
-						}
-						return
-
-					default:
-						// report conflict/checkpoint: add conflicting file to the bundle in some special location
-						// (e.g. .conflicts/{splitID}/{path}) and update the key with the newer file
-						existing.NameWithPath = d.deconflicter(splitID, existing.NameWithPath)
-						d.l.Debug("deconflicting", zap.String("from", file.NameWithPath), zap.String("to", existing.NameWithPath))
-						mergeIndex, _, _ = mergeIndex.Insert([]byte(existing.NameWithPath), existing)
-						// overwrite with new version
-						mergeIndex, _, _ = mergeIndex.Insert(key, mergeEntry{BundleEntry: file, ID: splitID})
-						conflicts++
-					}
-				} else {
-					// got an older file
-
-					if splitID == existing.ID {
-						// ignored self-inflicted conflict
+				key := []byte(file.NameWithPath)
+				var versions []mergeEntry
+				if obj, found := mergeIndex.Get(key); found {
+					versions = obj.([]mergeEntry)
+				}
+				sameSplit := false
+				for i, version := range versions {
+					if version.ID != splitID {
 						continue
 					}
-
-					switch mode {
-					case model.EnableConflicts, model.EnableCheckpoints:
-						newEntry := file
-						newEntry.NameWithPath = d.deconflicter(splitID, existing.NameWithPath)
-						d.l.Debug("deconflicting", zap.String("from", file.NameWithPath), zap.String("to", newEntry.NameWithPath))
-						mergeIndex, _, _ = mergeIndex.Insert([]byte(d.deconflicter(splitID, file.NameWithPath)), mergeEntry{BundleEntry: newEntry, ID: splitID})
-						conflicts++
-
-					case model.ForbidConflicts:
-						conflicts++
-						errorC <- errorHit{
-							error: status.ErrCommitGivenUp.
-								WrapWithLog(d.l, status.ErrForbiddenConflict, zap.String("entry", file.NameWithPath)),
-						}
-						return
+					// a split only contributes its latest version of a file
+					sameSplit = true
+					if file.Timestamp.After(version.Timestamp) {
+						versions[i] = mergeEntry{BundleEntry: file, ID: splitID}
 					}
+					break
+				}
+				if !sameSplit {
+					versions = append(versions, mergeEntry{BundleEntry: file, ID: splitID})
+				}
+				mergeIndex, _, _ = mergeIndex.Insert(key, versions)
+			}
+		}
+
+		// resolve: the latest write wins, any other version with a different content is a conflict
+		resolved := iradix.New()
+		collected := mergeIndex.Root().Iterator()
+		for key, obj, ok := collected.Next(); ok; key, obj, ok = collected.Next() {
+			versions := obj.([]mergeEntry)
+			winner := versions[0]
+			for _, version := range versions[1:] {
+				if version.Timestamp.After(winner.Timestamp) {
+					winner = version
+				}
+			}
+			resolved, _, _ = resolved.Insert(key, winner)
+
+			for _, version := range versions {
+				if version.Hash == winner.Hash {
+					// identical contents are never conflicts
+					continue
+				}
+				switch mode {
+				case model.IgnoreConflicts:
+				case model.ForbidConflicts:
+					conflicts++
+					errorC <- errorHit{
+						error: status.ErrCommitGivenUp.
+							WrapWithLog(d.l, status.ErrForbiddenConflict, zap.String("entry", winner.NameWithPath)),
+					}
+					return
+				default:
+					// the losing version is kept under the name of the split which uploaded it
+					loser := version
+					loser.NameWithPath = d.deconflicter(version.ID, version.NameWithPath)
+					d.l.Debug("deconflicting", zap.String("from", version.NameWithPath), zap.String("to", loser.NameWithPath))
+					resolved, _, _ = resolved.Insert([]byte(loser.NameWithPath), loser)
+					conflicts++
 				}
 			}
 		}
+		mergeIndex = resolved
 
 		d.l.Info("merge input completed", zap.Uint64("entries processed", merged), zap.Duration("elapsed", time.Since(t0)))
 		if conflicts > 0 {
